@@ -219,7 +219,9 @@ func c07r6(c *core.Ctx) {
 		c.Check(!reachesAfter(s, s), "decrypt-once-per-read@"+fname(dr), posOf(s), "Decrypt is called at most once per Read (no loop)",
 			"Decrypt is called in a loop inside one Read: the read goes back to the network although a complete message is available, and a partial next frame makes it block or fail")
 		fail := core.NonNilFact(func(v ssa.Value) bool {
-			return core.AnySource(v, func(sv ssa.Value) bool { return core.CallResult(sv, 1, func(i ssa.Instruction) bool { return i == s }) != nil })
+			return core.AnySource(v, func(sv ssa.Value) bool {
+				return core.CallResult(sv, 1, func(i ssa.Instruction) bool { return i == s }) != nil
+			})
 		})
 		swallowed := false
 		core.EnumPaths(dr, 2, 50000, func(pa core.Path) {
@@ -1450,7 +1452,9 @@ func c09r7(c *core.Ctx) {
 		// error from the inner writer ends the loop with that error
 		core.Instrs(cw, func(i ssa.Instruction) {
 			if call, ok := i.(*ssa.Call); ok && core.IsInvoke(call, "io.Writer", "Write") {
-				fail := core.NonNilFact(func(v ssa.Value) bool { return core.CallResult(v, 1, func(ci ssa.Instruction) bool { return ci == ssa.Instruction(call) }) != nil })
+				fail := core.NonNilFact(func(v ssa.Value) bool {
+					return core.CallResult(v, 1, func(ci ssa.Instruction) bool { return ci == ssa.Instruction(call) }) != nil
+				})
 				okRet := false
 				core.Instrs(cw, func(j ssa.Instruction) {
 					if r, isR := j.(*ssa.Return); isR && !core.IsNilConst(res(r)[1]) && core.Dominated(r, fail) {
